@@ -45,12 +45,26 @@ LOCALES = [None, {'LANG': 'de_DE', 'LC_ALL': 'de_DE'}, {'LANG': 'en_US', 'LC_ALL
 VARIATIONS = ['none', 'cwd-parent', 'outpath', 'ascmd', 'keyfile', 'keyfile-nonl', 'ascmd-keyfile', 'repeat', 'otherdir']
 
 
+FLAVOURS = ('val',)
+# memcheck workload: operand mutations (c03.mutate_line operator numbers relative to the boundary-number operators) that keep a statement
+# plausible: delete first / delete last / duplicate last / reverse / '#' prefix / parenthesise
+MEM_OPS = [0, 1, 2, 5, 10, 11]
+
+
 def plan(tier, seed):
     k = 3 if tier == 'quick' else 25
     cases = [{'prog': n, 'k': k} for n in corpus.names()]
     ngen = 60 if tier == 'quick' else 200
     for i in range(ngen):
         cases.append({'gen': i, 'k': k})
+    # the uninstrumented build under valgrind memcheck: no byte that reaches a file, and no decision, may come from uninitialised memory
+    import random
+    rng = random.Random(seed * 31337 + 5)
+    names = corpus.names()
+    mem = [(n, -1, 0) for n in names] + [(n, o, rng.randrange(12)) for n in names for o in MEM_OPS]
+    if tier == 'quick':
+        mem = rng.sample(mem, 14)
+    cases += [{'memcheck': m} for m in mem]
     return cases
 
 
@@ -72,7 +86,58 @@ def sha(b):
     return None if b is None else hashlib.sha256(b).hexdigest()[:16]
 
 
+VG_FRAME = re.compile(r'^==\d+==\s+(?:at|by) 0x[0-9A-F]+: (\S+) \(in [^)]*/(?:asl|p2bin|p2hex)\)', re.M)
+
+
+def run_memcheck(case, ctx):
+    from . import c03
+    out = ctx.out
+    pname, op, off = case['memcheck']
+    prog = corpus.Prog(pname)
+    prog.stage(ctx.dir)
+    src = prog.name + '.asm'
+    tag = '%s (unmodified)' % pname
+    if op >= 0:
+        lines = prog.source().decode('latin-1').split('\n')
+        ops = []
+        for l in lines:
+            p_ = c03.split_line(l) if l.strip() and not l.lstrip().startswith(';') else None
+            ops.append(p_[1] if p_ else None)
+        n = 0
+        for idx in range(off, len(lines), c03.STRIDE):
+            m = c03.mutate_line(lines[idx], len(c03.BOUNDARY_NUMS) + op, None)
+            if m is not None and m != lines[idx]:
+                lines[idx] = m
+                n += 1
+        if not n:
+            out.obs['memcheck_members_without_applicable_line'] += 1
+            return
+        ctx.write(src, '\n'.join(lines))
+        tag = '%s with operand mutation %d on every 12th line from %d (%d lines)' % (pname, op, off, n)
+    out.sample = {'memcheck': tag}
+    flags = list(prog.flags) + ['-i', corpus.include_dir()]
+    r = ctx.run('valgrind', ['-q', '--error-exitcode=77', '--leak-check=no', ctx.bins['val:asl'], src, '-o', 'x.p', '-L'] + flags + ['-q'],
+                env={'ASL_VERIF_MAX_LINES': '300000', 'ASL_VERIF_MAX_PASSES': '30'}, timeout=900, retry=False)
+    if r.timed_out:
+        out.inconc('timeout: memcheck')
+        return
+    err = r.err.decode('latin-1')
+    out.obs['memcheck_runs'] += 1
+    if r.rc == 77 or 'uninitialised' in err:
+        kind = 'write-to-file' if 'Syscall param write' in err else ('decision' if 'Conditional jump' in err else 'use')
+        m = VG_FRAME.search(err)
+        out.violate('uninitialised-%s:%s' % (kind, m.group(1) if m else '?'), '%s: %s' % (tag, err[:900].replace('\n', ' | ')))
+        return
+    if r.rc not in (0, 2, 3, 96, 97):
+        out.inconc('memcheck run ended with status %s' % r.rc)
+        return
+    out.nontrivial = True
+    out.sig = ('memcheck', pname, op, off)
+
+
 def run_case(case, ctx):
+    if 'memcheck' in case:
+        return run_memcheck(case, ctx)
     out = ctx.out
     rng = ctx.rng
     src_dir = ctx.path('s')
